@@ -13,18 +13,27 @@ import (
 type RefType struct {
 	Scope Scope
 	Name  string
+	// resolving is set while the referenced type is visited: a
+	// structure which contains itself has no signature.
+	resolving bool
 }
 
 // NewRefType is a contructor for the representation of a type reference to be
 // resolved with a TypeSet.
 func NewRefType(name string, scope Scope) signature.Type {
-	return &RefType{scope, name}
+	return &RefType{Scope: scope, Name: name}
 }
 
 // Signature returns the signature of the referenced type. If the
 // reference can not be resolved, it returns an invalid struct type
 // with a name describing the error.
 func (r *RefType) Signature() string {
+	if r.resolving {
+		return signature.NewStructType("recursive type: "+r.Name,
+			nil).Signature()
+	}
+	r.resolving = true
+	defer func() { r.resolving = false }()
 	t, err := r.Scope.Search(r.Name)
 	if err == nil {
 		return t.Signature()
@@ -113,6 +122,11 @@ func (r *RefType) Reader() signature.TypeReader {
 }
 
 func (r *RefType) Type() reflect.Type {
+	if r.resolving {
+		return reflect.TypeOf((*error)(nil))
+	}
+	r.resolving = true
+	defer func() { r.resolving = false }()
 	t, err := r.Scope.Search(r.Name)
 	if err == nil {
 		return t.Type()
